@@ -187,6 +187,11 @@ let run (kind : string) (f : string array) : string =
     let keys = if f.(3) = "~" then [] else List.map uh (split_on ',' f.(3)) in
     let got = range_iter rt lo hi keys in
     if got = [] then "~" else join "," (List.map h got)
+  | "DR" ->
+    let lo = uh f.(0) and hi = uh f.(1) in
+    let keys = if f.(2) = "~" then [] else List.map uh (split_on ',' f.(2)) in
+    let got = delete_range lo hi keys in
+    if got = [] then "~" else join "," (List.map h got)
   | "RDR" ->
     let rt = dtn f.(0) and lo = uh f.(1) and hi = uh f.(2) in
     let keys = if f.(3) = "~" then [] else List.map uh (split_on ',' f.(3)) in
